@@ -8,5 +8,6 @@ INVARIANT AlgRefinesRef
 INVARIANT RefLaws
 INVARIANT AlgReadYourWrite
 INVARIANT ObserversSane
+INVARIANT ConvLaws
 INVARIANT EmitState
 CHECK_DEADLOCK FALSE
